@@ -342,7 +342,9 @@ def wf_specs(draw, tier):
             "mesh": draw(st.lists(st.integers(2, 5), min_size=3, max_size=3)),
             "tmin": draw(st.sampled_from([0, 50, 100])), "tmax": draw(st.sampled_from([300, 400, 750])), "tstep": draw(st.sampled_from([50, 100, 150])),
             "sigma": draw(st.sampled_from([None, 0.1, 0.25])), "gamma_center": draw(st.booleans()), "eigvecs": draw(st.booleans()),
-            "band_const": draw(st.booleans()), "band_points": draw(st.sampled_from([5, 11, 16]))}
+            "band_const": draw(st.booleans()), "band_points": draw(st.sampled_from([5, 11, 16])),
+            # phonopy-load: primitive axes given again on the command line / in the conf file, possibly different from the yaml's
+            "load_pa": draw(st.sampled_from([None, None, "P", "auto"]))}
     if spec["mode"] == "band":
         # band paths with similar q-spacing depend on the reciprocal metric: prefer a strongly non-orthogonal cell there
         spec["proto"] = draw(st.sampled_from(["shear", "shear", "shear", "tric", "nacl_f", "cscl"]))
@@ -352,6 +354,10 @@ def wf_specs(draw, tier):
         spec["proto"] = draw(st.sampled_from(["tric", "shear", "tric", "nacl_f"]))
         spec["pm"] = draw(st.sampled_from(["false", "false", "true", "auto"]))
     spec.update(combo)
+    if spec["nac"]:
+        spec["load_pa"] = None  # Born charges recorded for one primitive cell cannot be combined with another (documented error)
+    elif spec["cmd"] == "phonopy-load" and spec["proto"] == "nacl_f" and spec["key"] % 2 == 0:
+        spec["load_pa"] = "P"  # the yaml file records F: the request must override it
     return spec
 
 
@@ -419,7 +425,8 @@ def lib_reference(spec, d, cellfile, pa):
     os.chdir(d)
     try:
         # mirror the documented defaults of the two commands: phonopy-load symmetrises force constants, phonopy does not
-        ph = phonopy.load(unitcell_filename=cellfile, supercell_matrix=np.diag(spec["dim"]), primitive_matrix=pa, calculator=spec["calc"],
+        pa_lib = spec["load_pa"] if (spec["cmd"] == "phonopy-load" and spec.get("load_pa")) else pa
+        ph = phonopy.load(unitcell_filename=cellfile, supercell_matrix=np.diag(spec["dim"]), primitive_matrix=pa_lib, calculator=spec["calc"],
                           is_nac=spec["nac"], fc_calculator="traditional", is_compact_fc=False, symmetrize_fc=(spec["cmd"] == "phonopy-load"),
                           log_level=0)
     finally:
@@ -449,6 +456,8 @@ def _common_args(spec, cellfile, pa, use_load):
         a += ["--qe"]
     if use_load:
         a += ["--fc-calc", "traditional"]
+        if spec.get("load_pa"):
+            a += ["--pa", spec["load_pa"]]
     else:
         a += ["--dim"] + [str(x) for x in spec["dim"]]
         if pa:
@@ -512,7 +521,7 @@ def _run_workflow(spec, td):
     mode = spec["mode"]
     mesh = [str(x) for x in spec["mesh"]]
     classes = ["mode:" + mode, "cmd:" + spec["cmd"], "calc:" + spec["calc"], "nac" if spec["nac"] else "nonac", "proto:" + spec["proto"],
-               "born_late" if spec.get("born_late") else "born_early", "calc_from_yaml" if (use_load and spec["calc"] == "qe" and not spec.get("explicit_calc", True)) else "calc_explicit_or_vasp"]
+               "born_late" if spec.get("born_late") else "born_early", "load_pa:%s" % (spec.get("load_pa") if spec["cmd"] == "phonopy-load" else "n/a"), "calc_from_yaml" if (use_load and spec["calc"] == "qe" and not spec.get("explicit_calc", True)) else "calc_explicit_or_vasp"]
     if use_load:
         # phonopy-load reads a phonopy yaml: produce it with the -d step of the phonopy command. BORN may be computed only
         # after the displacements were created (then phonopy_disp.yaml carries no NAC section and BORN is read at run time)
@@ -584,7 +593,7 @@ def _run_workflow(spec, td):
         if f in (cellfile, "FORCE_SETS", "BORN", "phonopy_disp.yaml"):
             shutil.copy(os.path.join(dA, f), dB)
     if use_load:
-        confB = conf_lines + ["FC_CALCULATOR = traditional"]
+        confB = conf_lines + ["FC_CALCULATOR = traditional"] + (["PRIMITIVE_AXES = " + spec["load_pa"]] if spec.get("load_pa") else [])
         argvB = ["phonopy_disp.yaml", "--config", "p.conf"] + (["--qe"] if spec["calc"] == "qe" and spec.get("explicit_calc", True) else [])
     else:
         confB = conf_lines + ["DIM = " + " ".join(str(x) for x in spec["dim"]), "CELL_FILENAME = " + cellfile] + (["PRIMITIVE_AXES = " + pa] if pa else []) + \
